@@ -14,7 +14,7 @@ ID = "C04"
 LEVEL = "exploration"
 RULE = (
     "clients {1,2,3} x target throughput {none, 1, 2, 10 ops/s, '20 docs/s', target-interval 0.5} x service-time words (all words of "
-    "length <= 2 (thorough 3) over {0.0625, 0.5, 1.0, 3.0}, continued periodically, rotated per client) x weight/unit {(1,ops),(5,docs)} "
+    "length <= 2 (thorough 3) over {0.0625, 0.5, 1.0, 3.0, 0.5 - 2^-11}, continued periodically, rotated per client) x weight/unit {(1,ops),(5,docs)} "
     "x error pattern {none, API error on 2nd, API error on 1st, unsuccessful result on 2nd, connection timeout on 2nd} x client-side "
     "overhead {0, (1/64, 1/32)} x wire requests per invocation {1,2}; 4 invocations per client, on-error=continue; for two-client "
     "configurations every order of simultaneously due callbacks up to 1 deviation; completed-by family: an unthrottled completing task "
@@ -28,7 +28,8 @@ ASSUMPTIONS = [
     "service time of an invocation = first wire request sent .. last response received at the simulated node; binary-fraction times, tolerance 1e-9",
 ]
 
-SVC = [0.0625, 0.5, 1.0, 3.0]
+# 0.49951171875 = 1/2 - 2^-11: a response that arrives less than a millisecond before the next request of a 2 ops/s client is due
+SVC = [0.0625, 0.5, 1.0, 3.0, 0.49951171875]
 THROUGHPUTS = [None, 1, 2, 10, "20 docs/s", ("interval", 0.5)]
 ERRORS = ["none", "api-2nd", "api-1st", "unsuccessful-2nd", "timeout-2nd"]
 N_ITER = 4
